@@ -432,27 +432,71 @@ func versionGuard(b *ssa.BasicBlock) (bool, string) {
 		if !ok {
 			continue
 		}
-		bin, ok := ifi.Cond.(*ssa.BinOp)
-		if !ok || (bin.Op != token.NEQ && bin.Op != token.EQL) {
+		isEq, isGuard := versionCompare(ifi.Cond, 0)
+		if !isGuard {
 			continue
 		}
 		// equal side
 		eqSucc := d.Succs[0]
-		if bin.Op == token.NEQ {
+		if !isEq {
 			eqSucc = d.Succs[1]
 		}
 		if !(eqSucc == b || eqSucc.Dominates(b)) {
 			continue
 		}
-		st, pa := stateKeyed(bin.X), fromParam(bin.Y, map[ssa.Value]bool{})
-		if !st || !pa {
-			st, pa = stateKeyed(bin.Y), fromParam(bin.X, map[ssa.Value]bool{})
-		}
-		if st && pa {
-			return true, "compares per-document state with the version the analysis was started for"
-		}
+		return true, "compares per-document state with the version the analysis was started for"
 	}
 	return false, ""
+}
+
+// versionCompare: cond is `state[key] == version` (isEq) or `!=` (not isEq) with key and version derived from
+// parameters - written in place, negated, or as the single result of a boolean helper that is handed
+// parameter-derived arguments (isLatestLocked(uri, gen)).
+func versionCompare(cond ssa.Value, depth int) (isEq, ok bool) {
+	switch x := cond.(type) {
+	case *ssa.UnOp:
+		if x.Op == token.NOT {
+			e, ok := versionCompare(x.X, depth)
+			return !e, ok
+		}
+	case *ssa.BinOp:
+		if x.Op != token.NEQ && x.Op != token.EQL {
+			return false, false
+		}
+		st, pa := stateKeyed(x.X), fromParam(x.Y, map[ssa.Value]bool{})
+		if !st || !pa {
+			st, pa = stateKeyed(x.Y), fromParam(x.X, map[ssa.Value]bool{})
+		}
+		return x.Op == token.EQL, st && pa
+	case *ssa.Call:
+		h := x.Call.StaticCallee()
+		if h == nil || h.Blocks == nil || !inModule(h) || depth > 2 || h.Signature.Results().Len() != 1 {
+			return false, false
+		}
+		for i, a := range x.Call.Args {
+			if i == 0 && h.Signature.Recv() != nil {
+				continue
+			}
+			if !fromParam(a, map[ssa.Value]bool{}) {
+				return false, false
+			}
+		}
+		n := 0
+		for _, b := range h.Blocks {
+			r, isRet := b.Instrs[len(b.Instrs)-1].(*ssa.Return)
+			if !isRet {
+				continue
+			}
+			e, ok := versionCompare(unspillResult(r.Results[0], b), depth+1)
+			if !ok || (n > 0 && e != isEq) {
+				return false, false
+			}
+			isEq = e
+			n++
+		}
+		return isEq, n > 0
+	}
+	return false, false
 }
 
 // stateKeyed: v is a map lookup `recv.field[key]` whose key derives from a parameter (per-document state).
@@ -501,6 +545,34 @@ func fromParam(v ssa.Value, seen map[ssa.Value]bool) bool {
 			}
 		}
 		return true
+	case *ssa.Field:
+		return fromParam(x.X, seen) // a member of a by-value struct parameter (job.gen)
+	case *ssa.UnOp:
+		if x.Op != token.MUL {
+			return false
+		}
+		// a field of a by-value struct parameter that was spilled to a local
+		a := x.X
+		for {
+			fa, ok := a.(*ssa.FieldAddr)
+			if !ok {
+				break
+			}
+			a = fa.X
+		}
+		if al, ok := a.(*ssa.Alloc); ok && a != x.X {
+			var val ssa.Value
+			n := 0
+			for _, r := range *al.Referrers() {
+				if st, ok := r.(*ssa.Store); ok && st.Addr == ssa.Value(al) {
+					n++
+					val = st.Val
+				}
+			}
+			if n == 1 {
+				return fromParam(val, seen)
+			}
+		}
 	}
 	return false
 }
@@ -558,9 +630,12 @@ func rulePublish(c *Ctx) {
 		nGo++
 		okArg := false
 		for _, a := range g.Common().Args {
-			if call, ok := a.(*ssa.Call); ok {
-				if cal := call.Common().StaticCallee(); cal != nil && inModule(cal) && bumpsVersionUnderLock(ci, cal) {
-					okArg = true
+			// the argument is, or is built from (a job record), the result of the bump
+			for v := range backSlice(a) {
+				if call, ok := v.(*ssa.Call); ok {
+					if cal := call.Common().StaticCallee(); cal != nil && inModule(cal) && bumpsVersionUnderLock(ci, cal) {
+						okArg = true
+					}
 				}
 			}
 		}
